@@ -25,9 +25,17 @@ Section C07.
     NoDup (handed (outs eqb points repaired dflt (init eqb points repaired dflt lo hi maxiv) h)).
   Proof. intros repaired. apply no_double_handout; auto. Qed.
 
-  (* tell x with x in no interval (not a key of x_mapping) is the ValueError
-     outcome and leaves the state unchanged *)
-  Theorem C07_rejects_foreign : forall repaired (s : st X) x vs,
+  (* tell x with x in no interval -- x is not an abscissa of the rule of any depth
+     <= the current depth of any interval ever created -- is the ValueError outcome
+     and leaves the state unchanged.  (Invariant [XL]: every key of x_mapping is
+     such an abscissa; [C07_rejects_unmapped] is the code's own test.) *)
+  Theorem C07_rejects_foreign : forall repaired lo hi maxiv (h : list (op X)) x vs,
+    let s := run eqb points repaired dflt (init eqb points repaired dflt lo hi maxiv) h in
+    halted s = false -> ~ belongs points dflt s x ->
+    step eqb points repaired dflt s (Tell x vs) = (s, ([], EValue)).
+  Proof. intros repaired. apply rejects_foreign_geometric; auto. Qed.
+
+  Theorem C07_rejects_unmapped : forall repaired (s : st X) x vs,
     halted s = false -> xmap_mem eqb x (xmap s) = false ->
     step eqb points repaired dflt s (Tell x vs) = (s, ([], EValue)).
   Proof. intros repaired. apply rejects_foreign. Qed.
@@ -156,6 +164,7 @@ Proof. vm_compute. repeat split. Qed.
 
 Print Assumptions C07_no_double_handout.
 Print Assumptions C07_rejects_foreign.
+Print Assumptions C07_rejects_unmapped.
 Print Assumptions C07_no_internal_error.
 Print Assumptions C07_cover_is_partition.
 Print Assumptions C07_partition_partial.
